@@ -117,7 +117,10 @@ TMerge == IsEvent("merge") /\ Commit(Ev.o, MergeRef(G(Ev.o))) /\ Unch
 TClear == IsEvent("clear") /\ Commit(Ev.o, ClearRef(G(Ev.o))) /\ Unch
 TBegin == IsEvent("begin") /\ Commit(Ev.o, Begin(G(Ev.o))) /\ Unch
 TFinish == IsEvent("finish") /\ Commit(Ev.o, Finish(G(Ev.o))) /\ Unch
-TLoadC == IsEvent("loadc") /\ Commit(Ev.o, LoadC(G(Ev.o), Ev.a)) /\ Unch
+TLoadC == /\ IsEvent("loadc")
+          /\ IF Ev.r = "skipped" THEN Ev.a.p = <<>> /\ Commit(Ev.o, [g |-> G(Ev.o), r |-> "skipped"])
+             ELSE Req("loadc-new-points", ~IsEmpty(G(Ev.o)) => Range(Ev.a.p) \cap G(Ev.o).pts = {}) /\ Commit(Ev.o, LoadC(G(Ev.o), Ev.a))
+          /\ Unch
 TNop == IsEvent("nop") /\ Commit(Ev.o, Ok(G(Ev.o))) /\ Unch
 \* continuing on the object restored from its own file image is the identity (C06)
 TRtSwap == IsEvent("rtswap") /\ Commit(Ev.o, Ok(G(Ev.o))) /\ Unch
